@@ -9,6 +9,8 @@ import (
 	"time"
 
 	"github.com/libp2p/go-libp2p/core/peer"
+	"github.com/sourcenetwork/immutable"
+	"github.com/sourcenetwork/lens/host-go/config/model"
 
 	"github.com/sourcenetwork/defradb/internal/db"
 )
@@ -39,6 +41,18 @@ func genC14Peer(seed int64, tier string) *Plan {
 		}
 	}
 	p.Steps = append(p.Steps, Step{K: "restart"}, Step{K: "write", A: 0, B: 0, C: 1}, Step{K: "write", A: 1, B: 0, C: 2})
+	// schema patches (own stream of choices): a patched collection has a version id that differs from its root
+	rs := newRng(seed, 143)
+	if chance(rs, 60) {
+		var steps []Step
+		for _, st := range p.Steps {
+			if chance(rs, 12) {
+				steps = append(steps, Step{K: "patch", A: rs.IntN(2)})
+			}
+			steps = append(steps, st)
+		}
+		p.Steps = steps
+	}
 	return p
 }
 
@@ -204,6 +218,7 @@ func runC14Peer(p *Plan, res *Result) {
 		return true
 	}
 	restarted := false
+	patched := map[string]int{}
 	for i, s := range p.Steps {
 		if len(res.Viols) > 0 || res.HarnessErr != "" {
 			break
@@ -318,8 +333,27 @@ func runC14Peer(p *Plan, res *Result) {
 			res.Stats["writes_routed"]++
 			drain()
 			shape = append(shape, "write")
+		case "patch":
+			c := colNames[mod(s.A, 2)]
+			if patched[c] >= 2 {
+				continue
+			}
+			patched[c]++
+			patch := fmt.Sprintf(`[{"op":"add","path":"/%s/Fields/-","value":{"Name":"px%d","Kind":11}}]`, c, patched[c])
+			for _, nd := range append([]*e2Node{x}, sinks...) {
+				if err := nd.DB.PatchSchema(nd.reqCtx(), patch, immutable.None[model.Lens](), true); err != nil {
+					res.HarnessErr = "PatchSchema: " + err.Error()
+					return
+				}
+			}
+			drain()
+			net.takePushes()
+			shape = append(shape, "patch")
+			res.Stats["schema_patches"]++
 		case "restart", "crash":
 			drain()
+			topicsBefore := x.Peer.SimSubscribedTopics()
+			sort.Strings(topicsBefore)
 			st := x.Store
 			key := x.key
 			if s.K == "crash" {
@@ -343,6 +377,14 @@ func runC14Peer(p *Plan, res *Result) {
 			res.Stats["peer_restarts"]++
 			shape = append(shape, s.K)
 			if !checkConfig(i, "after "+s.K) {
+				return
+			}
+			// the restarted node listens where the node listened before it stopped
+			topicsAfter := x.Peer.SimSubscribedTopics()
+			sort.Strings(topicsAfter)
+			if strings.Join(topicsBefore, ",") != strings.Join(topicsAfter, ",") {
+				res.violate("C14", "peer-config-differs", "subscribed-topics/after "+s.K, i,
+					"after %s the node is subscribed to topics %v, before it stopped to %v", s.K, topicsAfter, topicsBefore)
 				return
 			}
 		}
